@@ -320,7 +320,7 @@ type c19LongCase struct {
 }
 
 var c19Long = &vh.Prop[c19LongCase]{
-	ID: "C19", Name: "long-history",
+	ID: "C19", Name: "long-history", Slow: 20,
 	Gen: func(t *rapid.T) c19LongCase {
 		return c19LongCase{Shape: rapid.IntRange(0, 2).Draw(t, "shape"), Distinct: []int{40, 130, 260, 300, 520, 1100}[rapid.IntRange(0, 5).Draw(t, "distinct")],
 			Stride: rapid.IntRange(2, 9).Draw(t, "stride")}
@@ -357,7 +357,7 @@ func TestC19LongHistory(t *testing.T) { c19Long.Check(t, vh.N(40, 400)) }
 // The same long histories decide C11's "interned strings never share memory with the
 // input" for table sizes that short cases do not reach; reported under C11.
 var c11Long = &vh.Prop[c19LongCase]{
-	ID: "C11", Name: "interned-long-history",
+	ID: "C11", Name: "interned-long-history", Slow: 20,
 	Gen: c19Long.Gen,
 	Run: func(c c19LongCase, x *vh.Ctx) *vh.Failure {
 		f := c19Long.Run(c, x)
@@ -375,14 +375,14 @@ func TestC11HugeInternHistory(t *testing.T) {
 	if !vh.Thorough() || os.Getenv("VERIF_SHARD") != "0" {
 		t.Skip("thorough tier, first shard only")
 	}
-	if f := c11Long.One(c19LongCase{Shape: 0, Distinct: 17000, Stride: 7}); f != nil {
+	if f := c11Long.One(c19LongCase{Shape: 1, Distinct: 11000, Stride: 7}); f != nil {
 		t.Fatalf("C11/interned-long-history %s", f.Error())
 	}
 }
 
 // c10Long: history independence of decodes through an interned field after a very long history.
 var c10Long = &vh.Prop[c19LongCase]{
-	ID: "C10", Name: "interned-long-history",
+	ID: "C10", Name: "interned-long-history", Slow: 20,
 	Gen: c19Long.Gen,
 	Run: func(c c19LongCase, x *vh.Ctx) *vh.Failure {
 		f := c19Long.Run(c, x)
@@ -399,7 +399,7 @@ func TestC10HugeInternHistory(t *testing.T) {
 	if !vh.Thorough() || os.Getenv("VERIF_SHARD") != "0" {
 		t.Skip("thorough tier, first shard only")
 	}
-	if f := c10Long.One(c19LongCase{Shape: 2, Distinct: 17000, Stride: 6}); f != nil {
+	if f := c10Long.One(c19LongCase{Shape: 1, Distinct: 17000, Stride: 6}); f != nil {
 		t.Fatalf("C10/interned-long-history %s", f.Error())
 	}
 }
@@ -410,7 +410,7 @@ func TestC19HugeHistory(t *testing.T) {
 	if !vh.Thorough() || os.Getenv("VERIF_SHARD") != "0" {
 		t.Skip("thorough tier, first shard only")
 	}
-	if f := c19Long.One(c19LongCase{Shape: 0, Distinct: 17000, Stride: 5}); f != nil {
+	if f := c19Long.One(c19LongCase{Shape: 1, Distinct: 17000, Stride: 5}); f != nil {
 		t.Fatalf("C19/long-history %s", f.Error())
 	}
 }
